@@ -389,6 +389,24 @@ def run(ctx):
     if not binp:
         ctx.broken_ties.append("harness e7/view_test.go does not compile against the current tree")
         corr_broken.append("harness build")
+    elif ctx.replay_in:
+        # --replay <file>: re-execute the op lines of one replay file, model and implementation side by side
+        lines = [l[4:] if l.startswith("op: ") else l for l in open(ctx.replay_in).read().splitlines()]
+        for op in [l for l in lines if l.startswith("view ")]:
+            impl, crash = replay_one(ctx, binp, op)
+            rc, mout = ctx.driver("e7", stdin=op + "\n")
+            ctx.count_case(op, nontrivial=True)
+            print("op:    " + op[:400])
+            print("impl:  " + (impl if impl else "PROCESS DIED: %s in %s" % crash[:2]))
+            print("model: " + mout.strip())
+            if crash:
+                ctx.violation("crash:%s" % crash[1], "nsqadmin died (%s in %s) while serving the %s view" % (
+                    crash[0], crash[1], req_key(op)), "op: %s\n\n%s\n" % (op, crash[2]))
+            else:
+                bad = property_fails_on(op, impl)
+                if bad:
+                    ctx.violation("view:%s:%s" % (req_key(op), impl.split()[0]), bad, "op: %s\nimpl: %s\n" % (op, impl))
+        return
     else:
         replay_known(ctx, binp)
         n = ctx.budget(300, 3000)
@@ -473,7 +491,7 @@ def replay_one(ctx, binp, op):
                           env={"VERIF_SEED": ctx.seed, "VERIF_OUT": ctx.work, "VERIF_REPLAY": rp})
     implp = os.path.join(ctx.work, "replay.impl")
     impl = open(implp).read().splitlines() if os.path.exists(implp) else []
-    if rc != 0 and not impl:
+    if rc != 0:
         what, site = crash_key(out)
         return None, (what, site, out[-3000:])
     return (impl[0] if impl else "no-answer"), None
